@@ -21,6 +21,10 @@ def gen(tier, seed):
     # curvilinear grids whose longitude is stored (x, y) while the latitude is stored (y, x), non-square
     yield {'conv': 'cf2d', 'ny': 2, 'nx': 4, 'lon_transposed': True}
     yield {'conv': 'cf2d', 'ny': 4, 'nx': 1, 'lon_transposed': True, 'as_coords': False}
+    # meshes with fewer faces than nodes per face, the face dimension not named by an attribute (it is the first dimension of face_node)
+    yield {'conv': 'ugrid', 'ny': 1, 'nx': 2, 'face_dimension_attr': False}
+    yield {'conv': 'ugrid', 'ny': 1, 'nx': 1, 'face_dimension_attr': False, 'tables': ['edge_node']}
+    yield {'conv': 'ugrid', 'ny': 1, 'nx': 3, 'face_dimension_attr': False, 'start_index': 1}
     # tables that mention edges in a dataset without an edge dimension (no attribute, no edge table): still no edge grid
     yield {'conv': 'ugrid', 'ny': 2, 'nx': 3, 'split': [[0, 0]], 'tables': ['face_edge'], 'edge_dimension': False}
     yield {'conv': 'ugrid', 'ny': 2, 'nx': 2, 'tables': ['face_edge', 'face_face'], 'edge_dimension': False, 'start_index': 1}
